@@ -15,7 +15,7 @@ def run(rep: Report, tier: str, only=None) -> None:
 	configs = [({'tags': ['a', 'b', None], 'kids': 3, 'grand': 2, 'wide': 0}, 'root with <= 3 children over tags {a, b, empty}, <= 2 grandchildren under the first two, optional great-grandchild'),
 		({'tags': ['a', 'b', None], 'kids': 2, 'grand': 1, 'wide': 9}, 'same with nine extra same-tag leaves under the root (two-digit child indices)')]
 	if thorough:
-		configs = [({'tags': ['a', 'b', 'c', None], 'kids': 4, 'grand': 3, 'wide': 0}, 'root with <= 4 children over tags {a, b, c, empty}, <= 3 grandchildren under the first two, optional great-grandchild'),
+		configs = [({'tags': ['a', 'b', 'c', None], 'kids': 4, 'grand': 2, 'wide': 0}, 'root with <= 4 children over tags {a, b, c, empty}, <= 2 grandchildren under the first two, optional great-grandchild'),
 			({'tags': ['a', 'b', None], 'kids': 3, 'grand': 2, 'wide': 9}, 'root with <= 3 children + nine extra same-tag leaves (two-digit indices), <= 2 grandchildren')]
 	for cfg, bound in configs:
 		nk = n_seqs(len(cfg['tags']), cfg['kids'])
